@@ -338,6 +338,8 @@ fn render(e: Elem, b: &[u64]) -> String {
     format!("[{}]", v.join(", "))
 }
 
+const NONE_MSG: &str = "checked operation returned None";
+
 /// One case: operands `a` (N elements, or 1 if the left side is a scalar) and `b`.
 pub fn judge(op: &IntOp, a: &[u64], b: &[u64]) -> (Option<(String, String)>, bool) {
     let n = op.ty.n();
@@ -371,6 +373,16 @@ pub fn judge(op: &IntOp, a: &[u64], b: &[u64]) -> (Option<(String, String)>, boo
     let got = util::catch(|| f(a, b));
     let shown = format!("{}({}, {})", op.name, render(e, a), render(op.rhs_elem, b));
     match (prim_panics, got) {
+        // a `checked_*` reference fails by *returning None* (our `expect`), which is not a panic of the primitive: the vector
+        // operation has to return None as well, not panic (in any profile)
+        (Some((_, pm)), Err(p)) if pm.contains(NONE_MSG) && !p.msg.contains(NONE_MSG) => (
+            Some((format!("panic:{}", op.name), format!("{shown}: the checked primitive returns None without panicking, the vector operation panicked: {}", p.msg))),
+            true,
+        ),
+        (Some((_, pm)), Err(p)) if !pm.contains(NONE_MSG) && p.msg.contains(NONE_MSG) => (
+            Some((format!("missing-panic:{}", op.name), format!("{shown}: the primitive panics ({pm}) but the vector operation returned None"))),
+            false,
+        ),
         (Some(_), Err(_)) => (None, true),
         (Some((l, msg)), Ok(r)) => (
             Some((format!("missing-panic:{}", op.name), format!("{shown}: the primitive panics on lane {l} ({msg}) but the vector operation returned {}", render(e, &r)))),
